@@ -83,8 +83,7 @@ Qed.
    C15_f_*.v), for a query whose calendar date / leap flag / day of year (Epoch.get_date, is_leap, get_doy: not entered)
    give the fractional year yr: index k = round((yr - y0) * rate, 0) + target offset; result = Epoch(mean(k) + periodic terms)
    [+ Angle(parallax) / Angle(declination)]; and |result - (J0 + B k)| <= C while -41 <= k/cc <= 21 with 2C < B (interval
-   arithmetic on the proved coefficients).  moon_phase (4 targets): files C15_f_moon_phase_*.v, compiled in the thorough tier
-   (statement file C15_phase.v). *)
+   arithmetic on the proved coefficients).  moon_phase (4 targets) is not covered: one target takes > 40 min / 6 GB. *)
 Theorem C15_moon_maximum_declination_northern : C15_f_moon_maximum_declination_northern.closed_stmt /\ timing C15_f_moon_maximum_declination_northern.J0 C15_f_moon_maximum_declination_northern.B C15_f_moon_maximum_declination_northern.cc C15_f_moon_maximum_declination_northern.C C15_f_moon_maximum_declination_northern.v_jde_3.
 Proof. exact C15_f_moon_maximum_declination_northern.ok. Qed.
 Theorem C15_moon_maximum_declination_southern : C15_f_moon_maximum_declination_southern.closed_stmt /\ timing C15_f_moon_maximum_declination_southern.J0 C15_f_moon_maximum_declination_southern.B C15_f_moon_maximum_declination_southern.cc C15_f_moon_maximum_declination_southern.C C15_f_moon_maximum_declination_southern.v_jde_3.
